@@ -247,7 +247,12 @@ C17Event(o, k, b) ==
            listSame(repl, stl) ==
              /\ Len(repl) = Len(stl)
              /\ \A j \in DOMAIN repl : repl[j].id = stl[j].id /\ repl[j].criteria = stl[j].criteria
+           fp == PGet(p, "params", <<>>)
+           (* multiplier x (e^(alpha x queryNumber) - 1) is 0 whenever one of the three is 0 or left out *)
+           expIsZero == PGet(p, "function", "") = "expFromZero"
+                        /\ (PGet(fp, "multiplier", 0) = 0 \/ PGet(fp, "alpha", 0) = 0 \/ PGet(fp, "queryNumber", 0) = 0)
        IN (IF ~isConst \/ Near(f, PGet(PGet(p, "params", <<>>), "value", 0), 0) THEN {} ELSE {BFail("C17", "ratio", "")})
+          \cup (IF expIsZero => f = 0 THEN {} ELSE {BFail("C17", "ratio", "")})
           \cup (IF after.criteria = before.criteria /\ after.params = before.params THEN {} ELSE {BFail("C17", "criteria-or-params-changed", "")})
           \cup (IF ~coherent THEN {BFail("C17", "coverage", "")}
                 ELSE (IF \A a \in AllIds(before) : \A c \in StCritIds(before) : within(a, c) THEN {} ELSE {BFail("C17", "bound", "")})
